@@ -190,13 +190,13 @@ func c13Exec(op string) (string, *Violation) {
 		return out
 	}
 	type exp struct {
-		typ      string
-		e        c13Elem
-		vis      bool
-		oldVer   int
-		hasOld   bool
-		errKind  string
-		errFID   string
+		typ     string
+		e       c13Elem
+		vis     bool
+		oldVer  int
+		hasOld  bool
+		errKind string
+		errFID  string
 	}
 	var want []exp
 	wantErr, wantErrFID := "", ""
